@@ -23,7 +23,11 @@ fn build(c: &SCase) -> Vec<u8> {
     m.section(&is);
     let mut fs = we::FunctionSection::new();
     fs.function(1);
+    fs.function(0); // the helper $acc = function 2, of the type of $log: (i32) -> ()
     m.section(&fs);
+    let mut ms = we::MemorySection::new();
+    ms.memory(we::MemoryType { minimum: 1, maximum: None, memory64: false, shared: false, page_size_log2: None });
+    m.section(&ms);
     let mut gs = we::GlobalSection::new();
     gs.global(we::GlobalType { val_type: we::ValType::I32, mutable: true, shared: false }, &we::ConstExpr::i32_const(0));
     m.section(&gs);
@@ -31,6 +35,9 @@ fn build(c: &SCase) -> Vec<u8> {
     let mut f = we::Function::new([(c.nlocals, we::ValType::I32)]);
     for op in &c.body { f.instruction(&op.enc()); }
     code.function(&f);
+    let mut h = we::Function::new([]);
+    h.instruction(&we::Instruction::GlobalGet(0)); h.instruction(&we::Instruction::LocalGet(0)); h.instruction(&we::Instruction::I32Add); h.instruction(&we::Instruction::GlobalSet(0)); h.instruction(&we::Instruction::End);
+    code.function(&h);
     m.section(&code);
     m.finish()
 }
@@ -122,7 +129,7 @@ fn main() {
         }));
         let (obs, valid) = match &res {
             Err(_) => (None, false),
-            Ok(out) => { let mut d = decode_bodies(out, &mut toks); (d.pop().map(|(g, b)| (b, g)), validates(out)) }
+            Ok(out) => { let d = decode_bodies(out, &mut toks); (d.into_iter().next().map(|(g, b)| (b, g)), validates(out)) } // body 0 = the instrumented function, body 1 = $acc
         };
         let mut argv = vec![];
         for _ in 0..4 { argv.push(format!("[{}; {}]%Z", r.below(3) as i64 - 1 + (if r.chance(1, 8) { 4294967295i64 } else { 0 }) * 0, r.below(4) as i64)); }
@@ -143,6 +150,8 @@ fn main() {
         for (i, m, _) in &c.plan { if *m == Mode::SemanticAfter && c.body[*i].is_branchy() { tags.push("sa_on_branch".into()); } }
         if c.body.iter().any(|o| matches!(o, Op::Loop(_))) { tags.push("has_loop".into()); }
         if c.body.iter().any(|o| matches!(o, Op::BrTable(..))) { tags.push("has_br_table".into()); }
+        if c.body.iter().any(|o| matches!(o, Op::Other(T_LOAD) | Op::Other(T_STORE))) { tags.push("has_memory_access".into()); }
+        if c.body.iter().any(|o| matches!(o, Op::Other(T_CALL2))) { tags.push("has_call".into()); }
         if !c.entry.is_empty() { tags.push("fn_entry".into()); }
         if !c.exit.is_empty() { tags.push("fn_exit".into()); }
         Case { seed, idx, coq, desc, nontrivial: true, tags }
